@@ -384,8 +384,9 @@ def run_cell(model, lik, desc, test_x, test_noise, cell, P, skip_noisy=False, re
             obs["cc_grad"] = bool(cc.requires_grad)
         if want_solve:
             # the last finished solve with an (N x S) right-hand side is the one exact_predictive_covar consumed
+            # (DefaultPredictionStrategy; the kernel-specific strategies compute the covariance differently)
             obs["cg_solve"] = None
-            for rt, lt, res in reversed(log):
+            for rt, lt, res in (reversed(log) if default_strategy else ()):
                 if lt is None and torch.is_tensor(rt) and rt.dim() >= 2 and tuple(rt.shape[-2:]) == (N, Sx):
                     try:
                         obs["cg_solve"] = bexp(res, 2)
@@ -878,9 +879,9 @@ def correspondence(ctx, extra=False):
     torch.set_num_threads(2)
     thorough = ctx.tier == "thorough" or extra
     n_single, n_multi, ncell = (60, 12, 10) if not thorough else (220, 32, 64)
-    n_ext, ncell_ext = (len(X.EXT_ALWAYS) + 7, 5) if not thorough else (2 * len(X.EXT_KERNEL_KINDS), 32)
+    n_ext, ncell_ext = (len(X.EXT_ALWAYS) + 7, 5) if not thorough else (len(X.EXT_ALWAYS) + len(X.EXT_KERNEL_KINDS), 32)
     workers = 4 if not thorough else 10
-    n_nd = 6 if not thorough else 20
+    n_nd = 6 if not thorough else 12
     if os.environ.get("VERIF_C01_CASES"):
         n_single, n_multi, n_ext, n_nd = ([int(v) for v in os.environ["VERIF_C01_CASES"].split(",")] + [0, 0])[:4]
     c12 = _c12_calltime_noise_defect()
@@ -936,19 +937,19 @@ def correspondence(ctx, extra=False):
         # ---- wave 3 scenarios, each on a FRESH build of this case (so that a replay is exact): repeated predictions on
         #      one object; copy histories; the models returned by get_fantasy_model
         #      quick: repeat on every model, copy / fantasy on alternating models (one op / one cell each);
-        #      thorough: every copy op (one of them also judged under a second cell) and two fantasy cells per model
+        #      thorough: on every model two copy ops (cycled; one also judged under a second cell) and one fantasy cell
         other = lambda c1: crng.choice([c for c in G.all_cells() if c["cg"] == c1["cg"] and c != c1])
         scen = [{"type": "repeat", "cell": crng.choice(G.all_cells())}]
         if thorough or n_scen % 2 == 0:
-            copy_ops = list(X.COPY_OPS) if thorough else [X.COPY_OPS[(n_scen // 2) % len(X.COPY_OPS)]]
+            nops = len(X.COPY_OPS)
+            copy_ops = [X.COPY_OPS[(2 * n_scen + k) % nops] for k in range(2)] if thorough \
+                else [X.COPY_OPS[(n_scen // 2) % nops]]
             for k, op in enumerate(copy_ops):
                 c1 = cell_cycle[(3 * n_scen + k) % 64]
-                scen.append({"type": "copy", "op": op, "cell": c1,
-                             "cell2": other(c1) if thorough and k == n_scen % len(X.COPY_OPS) else None})
+                scen.append({"type": "copy", "op": op, "cell": c1, "cell2": other(c1) if thorough and k == 0 else None})
         if thorough or n_scen % 2 == 1:
-            for k in range(1 if not thorough else 2):
-                c1 = cell_cycle[(5 * n_scen + 11 * k + 1) % 64]
-                scen.append({"type": "fantasy", "cell": c1, "cell2": other(c1), "source": thorough and k == 0})
+            c1 = cell_cycle[(5 * n_scen + 1) % 64]
+            scen.append({"type": "fantasy", "cell": c1, "cell2": other(c1), "source": thorough})
         n_scen += 1
         for sc in scen:
             try:
